@@ -10,8 +10,8 @@ and the comparison would be blind to it.
 pmap workers / threads) executes a parse / lex / generate / visit call.  It
 forks a *reserve* process that never runs pycparser code itself.
 `pristine_map(fn, tasks)` asks the reserve to run every task in its own
-grand-child, forked from the reserve (multiprocessing fork context,
-maxtasksperchild=1, chunksize=1): one process per baseline, so baselines
+grand-child, forked from the reserve (plain os.fork, one child per
+task, results through one file per child): one process per baseline, so baselines
 cannot pollute each other either, at any later time of the run.
 
 Harness code that is about to run pycparser code calls `touch(what)`;
@@ -24,6 +24,7 @@ processes.
 """
 from __future__ import annotations
 
+import atexit
 import multiprocessing as mp
 import os
 import sys
@@ -44,28 +45,61 @@ def is_pristine() -> bool:
     return os.getpid() not in _TOUCHED
 
 
-def _init():
-    import signal
-
-    signal.signal(signal.SIGINT, signal.SIG_IGN)
-    sys.setrecursionlimit(3000)
-
-
-def _call(arg):
-    fn, task = arg
-    if not is_pristine():
-        raise RuntimeError("baseline child is not pristine: " + _TOUCHED[os.getpid()])
-    return fn(task)
-
-
 def _run_jobs(jobs, nproc):
-    ctx = mp.get_context("fork")
-    n = max(1, min(nproc, len(jobs)))
-    with ctx.Pool(n, initializer=_init, maxtasksperchild=1) as p:
-        flat = p.map(_call, jobs, chunksize=1)
-        p.close()
-        p.join()
-    return flat
+    """Every job in its own child, forked from this (pristine) process; at
+    most nproc at a time; results come back through one file per child."""
+    import pickle
+    import shutil
+    import tempfile
+
+    tmp = tempfile.mkdtemp(prefix="verif-pristine-")
+    results = [None] * len(jobs)
+    running = {}  # pid -> job index
+    nxt = 0
+    try:
+        while nxt < len(jobs) or running:
+            while nxt < len(jobs) and len(running) < max(1, nproc):
+                fn, task = jobs[nxt]
+                pid = os.fork()
+                if pid == 0:
+                    code = 1
+                    try:
+                        sys.setrecursionlimit(3000)
+                        if not is_pristine():
+                            raise RuntimeError("baseline child is not pristine: " + _TOUCHED[os.getpid()])
+                        out = ("ok", fn(task))
+                        code = 0
+                    except BaseException as e:  # noqa
+                        out = ("err", f"{type(e).__name__}: {e}\n{traceback.format_exc()[-2000:]}")
+                    try:
+                        with open(os.path.join(tmp, f"{nxt}.tmp"), "wb") as f:
+                            pickle.dump(out, f, protocol=pickle.HIGHEST_PROTOCOL)
+                        os.rename(os.path.join(tmp, f"{nxt}.tmp"), os.path.join(tmp, f"{nxt}.pkl"))
+                    finally:
+                        os._exit(code)
+                running[pid] = nxt
+                nxt += 1
+            pid, status = os.wait()
+            i = running.pop(pid, None)
+            if i is None:
+                continue
+            path = os.path.join(tmp, f"{i}.pkl")
+            if not os.path.exists(path):
+                raise RuntimeError(f"pristine child for job {i} died (status {status})")
+            with open(path, "rb") as f:
+                st, val = pickle.load(f)
+            if st != "ok":
+                raise RuntimeError("pristine child failed: " + val)
+            results[i] = val
+    finally:
+        for pid in running:
+            try:
+                os.kill(pid, 9)
+                os.waitpid(pid, 0)
+            except OSError:
+                pass
+        shutil.rmtree(tmp, ignore_errors=True)
+    return results
 
 
 def _reserve_main(conn):
@@ -105,6 +139,7 @@ def start_reserve():
     proc.start()
     child.close()
     _RESERVE = (proc, parent, os.getpid())
+    atexit.register(stop_reserve)
 
 
 def stop_reserve():
